@@ -304,9 +304,10 @@ where
             let sum = max.clone() + &min;
             let l = sum.clone() / T::from_f64(2.0);
             if max.neq(&min).is_true() {
-                let d = max - min;
+                let d = max.clone() - &min;
                 s = if sum.gt(&T::one()).is_true() {
-                    d.clone() / (T::from_f64(2.0) - sum)
+                    // Not `2 - sum`, which is 0 when `max + min` rounds up to 2.
+                    d.clone() / ((T::one() - max) + (T::one() - min))
                 } else {
                     d.clone() / sum
                 };
@@ -338,8 +339,9 @@ where
             let chroma = max.clone() - &min;
             let saturation = lazy_select! {
                 if min.eq(&max) => T::zero(),
+                // Not `2 - sum`, which is 0 when `max + min` rounds up to 2.
                 else => chroma.clone() /
-                    sum.gt(&T::one()).select(T::from_f64(2.0) - &sum, sum.clone()),
+                    sum.gt(&T::one()).select((T::one() - &max) + (T::one() - &min), sum.clone()),
             };
 
             // Each of these represents an RGB component. The maximum will be false
